@@ -34,6 +34,11 @@ type c13Case struct {
 	Channels int    `json:"extra_channels"`   // further logical channels on the connection
 	K        int    `json:"k,omitempty"`      // which write/read of the in-flight call is held
 	Rep      int    `json:"rep,omitempty"`
+	// ErrState: "conn-errors-full" = ten unconsumed reports (packets for a
+	// channel that does not exist) fill the connection's error queue;
+	// "+channel-error" = after that a response on the channel under test
+	// carries an unusable packet size announcement (a channel-level error)
+	ErrState string `json:"error_queues,omitempty"`
 }
 
 const c13Cap = 3
@@ -303,6 +308,27 @@ func c13Run(c *Ctx, cs c13Case) {
 			}
 		}
 	}
+	if cs.ErrState != "" {
+		for i := 0; i < 10; i++ {
+			k.tr.Feed(xport.Packet(byte(tds.TDS_BUF_RESPONSE), xport.EOM, 999, srv.Done(srv.TokDone, 0, 0, 0)))
+		}
+		if strings.HasSuffix(cs.ErrState, "+channel-error") {
+			k.tr.Feed(xport.Packet(byte(tds.TDS_BUF_RESPONSE), 0, cs.chanID(), srv.EnvChange(srv.EnvMember{Type: 4, New: "4", Old: "512"})))
+		}
+		// the reader comes to rest in Read, or parked with an error it
+		// cannot queue yet
+		deadline := time.Now().Add(20 * time.Second)
+		for !k.tr.IsIdle() {
+			if st, ok := readerQuiescent(waitReaderGID(k.tr), 0); ok && st == "chan send" && !k.tr.Pending() {
+				break
+			}
+			if time.Now().After(deadline) {
+				r.Inconclusive("state %+v not reached: reader neither idle nor parked", cs)
+				return
+			}
+			time.Sleep(200 * time.Microsecond)
+		}
+	}
 	stateClass := fmt.Sprintf("fill-%s", map[bool]string{true: "reader-parked-on-full-queue", false: "within-capacity"}[cs.Fill > c13Cap])
 	if cs.Fill == 0 {
 		stateClass = "fill-empty"
@@ -310,7 +336,10 @@ func c13Run(c *Ctx, cs c13Case) {
 	if cs.TFail {
 		stateClass += "+transport-failed"
 	}
-	if cs.Fill > 0 || cs.TFail {
+	if cs.ErrState != "" {
+		stateClass += "+" + cs.ErrState
+	}
+	if cs.Fill > 0 || cs.TFail || cs.ErrState != "" {
 		r.Distinct(fmt.Sprintf("%+v", cs))
 	}
 	r.SetAdd("state_action", stateClass+"|"+cs.Action+"|"+cs.Peer+fmt.Sprintf("|logical=%v", cs.Logical))
@@ -793,6 +822,16 @@ func runC13(c *Ctx) {
 				}
 				for k := 1; k <= 3; k++ {
 					cases = append(cases, c13Case{Action: "close-vs-send-in-flight", Fill: f, Logical: logical, Peer: "prompt", TFail: tf, K: k})
+				}
+			}
+		}
+	}
+	// full connection error queue (and a channel-level error behind it)
+	for _, es := range []string{"conn-errors-full", "conn-errors-full+channel-error"} {
+		for _, f := range []int{0, 2} {
+			for _, logical := range []bool{false, true} {
+				for _, a := range []string{"close", "close-twice", "conn-close"} {
+					cases = append(cases, c13Case{Action: a, Fill: f, Logical: logical, Peer: "prompt", ErrState: es, Channels: f / 2})
 				}
 			}
 		}
